@@ -8,7 +8,7 @@ pub fn begin_collect_arguments<T: InterpreterTrait>(interpreter: &mut T) {
 
 pub fn enqueue_to_return_stack<T: InterpreterTrait>(interpreter: &mut T, index: usize) {
     let v = interpreter.context()[index].clone();
-    let path = interpreter.context().variables().get_arg_path(index).cloned();
+    let path = interpreter.context().arg_path(index).cloned();
     interpreter.by_ref_stack().push_back((v, path));
 }
 
